@@ -1,1 +1,824 @@
+/-
+Lemmas on the dispatch loop of the executor (`OratioModel/Exec/Executor.lean`):
+`atPulse`/`addAt`, what `buildTimelines` builds, one `iteration`, the `manage` loop.
+-/
 import OratioModel
+import OratioProofs.Lemmas.Sweep
+
+namespace Oratio.Exec
+open Oratio.Sweep
+
+/-! ### what a piece of the loop did (the same functions as `startedBy` … of the property file) -/
+
+def startsOf (ev : List Event) : List Nat := ev.flatMap (fun e => match e with | .start l => l | _ => [])
+def endsOf (ev : List Event) : List Nat := ev.flatMap (fun e => match e with | .stop l => l | _ => [])
+def dStartsOf (ev : List Event) : List Nat := ev.flatMap (fun e => match e with | .delayStart i _ => [i] | _ => [])
+def dEndsOf (ev : List Event) : List Nat := ev.flatMap (fun e => match e with | .delayEnd i _ => [i] | _ => [])
+
+/-! ### `atPulse` and `addAt` -/
+
+theorem mem_atPulse {m : List (Time × List Nat)} {p : Time} {i : Nat} (h : i ∈ atPulse m p) :
+    ∃ e ∈ m, e.1 = p ∧ i ∈ e.2 := by
+  unfold atPulse at h
+  cases hf : m.find? (fun e => e.1 == p) with
+  | none => simp [hf] at h
+  | some e =>
+    simp only [hf, Option.map_some, Option.getD_some] at h
+    have h1 := List.find?_some hf
+    exact ⟨e, List.mem_of_find?_eq_some hf, by simpa using h1, h⟩
+
+/-- the atoms at pulse `q` after `addAt m p i` -/
+theorem atPulse_addAt (m : List (Time × List Nat)) (p q : Time) (i : Nat) :
+    atPulse (addAt m p i) q =
+      if q = p then (if (atPulse m p).contains i then atPulse m p else atPulse m p ++ [i]) else atPulse m q := by
+  unfold addAt
+  split
+  · rename_i hany
+    unfold atPulse
+    rw [List.find?_map]
+    have hcomp : ((fun e : Time × List Nat => e.1 == q) ∘
+        (fun e : Time × List Nat => if e.1 == p then (e.1, if e.2.contains i then e.2 else e.2 ++ [i]) else e)) =
+        (fun e => e.1 == q) := by
+      funext e; simp only [Function.comp]; split <;> rfl
+    rw [hcomp]
+    by_cases hq : q = p
+    · subst hq
+      simp only [if_true]
+      cases hf : m.find? (fun e => e.1 == q) with
+      | none =>
+        rw [List.find?_eq_none] at hf
+        rcases List.any_eq_true.1 hany with ⟨e, he, hep⟩
+        exact absurd hep (hf e he)
+      | some e =>
+        have h1 : e.1 = q := by simpa using List.find?_some hf
+        simp [h1]
+    · simp only [if_neg hq]
+      cases hf : m.find? (fun e => e.1 == q) with
+      | none => simp
+      | some e =>
+        have h1 : e.1 = q := by simpa using List.find?_some hf
+        have h2 : ¬ e.1 = p := h1 ▸ hq
+        simp [h2]
+  · rename_i hany
+    have hnone : m.find? (fun e => e.1 == p) = none := by
+      rw [List.find?_eq_none]
+      intro e he hep
+      exact hany (List.any_eq_true.2 ⟨e, he, hep⟩)
+    unfold atPulse
+    rw [List.find?_append]
+    by_cases hq : q = p
+    · subst hq
+      simp [hnone]
+    · have : (p == q) = false := by simpa using fun h => hq h.symm
+      simp [hq, this]
+
+theorem mem_atPulse_addAt {m : List (Time × List Nat)} {p q : Time} {i j : Nat} :
+    j ∈ atPulse (addAt m p i) q ↔ j ∈ atPulse m q ∨ (j = i ∧ q = p) := by
+  rw [atPulse_addAt]
+  by_cases hq : q = p
+  · subst hq
+    simp only [if_true]
+    split
+    · rename_i hc
+      have : i ∈ atPulse m q := by simpa using hc
+      constructor
+      · exact Or.inl
+      · rintro (h | ⟨rfl, -⟩)
+        · exact h
+        · exact this
+    · simp
+  · simp [hq]
+
+theorem nodup_atPulse_addAt {m : List (Time × List Nat)} {p q : Time} {i : Nat} (h : (atPulse m q).Nodup) :
+    (atPulse (addAt m p i) q).Nodup := by
+  rw [atPulse_addAt]
+  by_cases hq : q = p
+  · subst hq
+    simp only [if_true]
+    split
+    · exact h
+    · rename_i hc
+      have : i ∉ atPulse m q := by simpa using hc
+      refine List.nodup_append.2 ⟨h, by simp, ?_⟩
+      intro a ha b hb hab
+      simp only [List.mem_singleton] at hb
+      exact this (hb ▸ hab ▸ ha)
+  · simpa [hq] using h
+
+theorem keys_addAt (m : List (Time × List Nat)) (p : Time) (i : Nat) :
+    (addAt m p i).map (·.1) = if m.any (fun e => e.1 == p) then m.map (·.1) else m.map (·.1) ++ [p] := by
+  unfold addAt
+  split
+  · rw [List.map_map]
+    apply List.map_congr_left
+    intro e _
+    simp only [Function.comp]; split <;> rfl
+  · simp
+
+theorem nodup_keys_addAt {m : List (Time × List Nat)} {p : Time} {i : Nat} (h : (m.map (·.1)).Nodup) :
+    ((addAt m p i).map (·.1)).Nodup := by
+  rw [keys_addAt]
+  split
+  · exact h
+  · rename_i hany
+    refine List.nodup_append.2 ⟨h, by simp, ?_⟩
+    intro a ha b hb
+    simp only [List.mem_singleton] at hb
+    subst hb
+    rintro rfl
+    rcases List.mem_map.1 ha with ⟨e, he, rfl⟩
+    exact hany (List.any_eq_true.2 ⟨e, he, by simp⟩)
+
+
+/-! ### what `buildTimelines` builds -/
+
+/-- one step of the fold of `buildTimelines` -/
+def bstep (x : Exec) (a : XAtom) : Exec :=
+  if x.ended.contains a.id then x
+  else if a.impulse then
+    { x with sAtms := addAt x.sAtms a.start a.id, eAtms := addAt x.eAtms a.start a.id, pulses := insertPulse a.start x.pulses }
+  else
+    let x := if x.started.contains a.id then x
+             else { x with sAtms := addAt x.sAtms a.start a.id, pulses := insertPulse a.start x.pulses }
+    { x with eAtms := addAt x.eAtms a.stop a.id, pulses := insertPulse a.stop x.pulses }
+
+theorem buildTimelines_eq (x : Exec) (plan : List XAtom) :
+    buildTimelines x plan = plan.foldl bstep { x with sAtms := [], eAtms := [], pulses := [] } := rfl
+
+/-- the pulse at which an atom ends: an impulse ends where it starts -/
+def endPulse (a : XAtom) : Time := if a.impulse then a.start else a.stop
+
+/-- the timelines built from the atoms `done` of the plan, for the dispatch sets `st` / `en` -/
+structure BInv (st en : List Nat) (done : List XAtom) (y : Exec) : Prop where
+  hst : y.started = st
+  hen : y.ended = en
+  sMem : ∀ p i, i ∈ atPulse y.sAtms p ↔
+    ∃ a ∈ done, a.id = i ∧ a.start = p ∧ a.id ∉ en ∧ (a.impulse = true ∨ a.id ∉ st)
+  eMem : ∀ p i, i ∈ atPulse y.eAtms p ↔ ∃ a ∈ done, a.id = i ∧ endPulse a = p ∧ a.id ∉ en
+  sPulse : ∀ p i, i ∈ atPulse y.sAtms p → p ∈ y.pulses
+  ePulse : ∀ p i, i ∈ atPulse y.eAtms p → p ∈ y.pulses
+  sorted : Sorted y.pulses
+  sNodup : ∀ p, (atPulse y.sAtms p).Nodup
+  eNodup : ∀ p, (atPulse y.eAtms p).Nodup
+  sKeys : (y.sAtms.map (·.1)).Nodup
+  eKeys : (y.eAtms.map (·.1)).Nodup
+
+theorem BInv.step {st en : List Nat} {done : List XAtom} {y : Exec} (h : BInv st en done y) (a : XAtom) :
+    BInv st en (done ++ [a]) (bstep y a) := by
+  have hex : ∀ (P : XAtom → Prop), (∃ b ∈ done ++ [a], P b) ↔ (∃ b ∈ done, P b) ∨ P a := by
+    intro P; simp only [List.mem_append, List.mem_singleton]
+    constructor
+    · rintro ⟨b, hb | rfl, hp⟩
+      · exact Or.inl ⟨b, hb, hp⟩
+      · exact Or.inr hp
+    · rintro (⟨b, hb, hp⟩ | hp)
+      · exact ⟨b, Or.inl hb, hp⟩
+      · exact ⟨a, Or.inr rfl, hp⟩
+  unfold bstep
+  by_cases hE : a.id ∈ en
+  · -- already ended: left out
+    have : y.ended.contains a.id = true := by simpa [h.hen] using hE
+    simp only [this, if_true]
+    refine { h with sMem := ?_, eMem := ?_ }
+    · intro p i; rw [h.sMem, hex]; simp [hE]
+    · intro p i; rw [h.eMem, hex]; simp [hE]
+  · have : y.ended.contains a.id = false := by simpa [h.hen] using hE
+    simp only [this, Bool.false_eq_true, if_false]
+    by_cases hI : a.impulse = true
+    · simp only [hI, if_true]
+      refine ⟨h.hst, h.hen, ?_, ?_, ?_, ?_, sorted_insertPulse h.sorted, fun p => nodup_atPulse_addAt (h.sNodup p),
+        fun p => nodup_atPulse_addAt (h.eNodup p), nodup_keys_addAt h.sKeys, nodup_keys_addAt h.eKeys⟩
+      · intro p i
+        simp only [mem_atPulse_addAt, h.sMem, hex, hE, hI, not_false_eq_true, true_or, and_true]
+        constructor
+        · rintro (h1 | ⟨rfl, rfl⟩)
+          · exact Or.inl h1
+          · exact Or.inr ⟨rfl, rfl⟩
+        · rintro (h1 | ⟨rfl, rfl⟩)
+          · exact Or.inl h1
+          · exact Or.inr ⟨rfl, rfl⟩
+      · intro p i
+        simp only [mem_atPulse_addAt, h.eMem, hex, hE, endPulse, hI, if_true, not_false_eq_true, and_true]
+        constructor
+        · rintro (h1 | ⟨rfl, rfl⟩)
+          · exact Or.inl h1
+          · exact Or.inr ⟨rfl, rfl⟩
+        · rintro (h1 | ⟨rfl, rfl⟩)
+          · exact Or.inl h1
+          · exact Or.inr ⟨rfl, rfl⟩
+      · intro p i hi
+        rcases mem_atPulse_addAt.1 hi with h1 | ⟨-, rfl⟩
+        · exact mem_insertPulse.2 (Or.inr (h.sPulse p i h1))
+        · exact mem_insertPulse.2 (Or.inl rfl)
+      · intro p i hi
+        rcases mem_atPulse_addAt.1 hi with h1 | ⟨-, rfl⟩
+        · exact mem_insertPulse.2 (Or.inr (h.ePulse p i h1))
+        · exact mem_insertPulse.2 (Or.inl rfl)
+    · have hI' : a.impulse = false := by simpa using hI
+      simp only [hI', Bool.false_eq_true, if_false]
+      by_cases hS : a.id ∈ st
+      · have : y.started.contains a.id = true := by simpa [h.hst] using hS
+        simp only [this, if_true]
+        refine ⟨h.hst, h.hen, ?_, ?_, ?_, ?_, sorted_insertPulse h.sorted, h.sNodup,
+          fun p => nodup_atPulse_addAt (h.eNodup p), h.sKeys, nodup_keys_addAt h.eKeys⟩
+        · intro p i; rw [h.sMem, hex]; simp [hS, hI']
+        · intro p i
+          simp only [mem_atPulse_addAt, h.eMem, hex, hE, endPulse, hI', Bool.false_eq_true, if_false,
+            not_false_eq_true, and_true]
+          constructor
+          · rintro (h1 | ⟨rfl, rfl⟩)
+            · exact Or.inl h1
+            · exact Or.inr ⟨rfl, rfl⟩
+          · rintro (h1 | ⟨rfl, rfl⟩)
+            · exact Or.inl h1
+            · exact Or.inr ⟨rfl, rfl⟩
+        · intro p i hi
+          exact mem_insertPulse.2 (Or.inr (h.sPulse p i hi))
+        · intro p i hi
+          rcases mem_atPulse_addAt.1 hi with h1 | ⟨-, rfl⟩
+          · exact mem_insertPulse.2 (Or.inr (h.ePulse p i h1))
+          · exact mem_insertPulse.2 (Or.inl rfl)
+      · have : y.started.contains a.id = false := by simpa [h.hst] using hS
+        simp only [this, Bool.false_eq_true, if_false]
+        refine ⟨h.hst, h.hen, ?_, ?_, ?_, ?_, sorted_insertPulse (sorted_insertPulse h.sorted),
+          fun p => nodup_atPulse_addAt (h.sNodup p),
+          fun p => nodup_atPulse_addAt (h.eNodup p), nodup_keys_addAt h.sKeys, nodup_keys_addAt h.eKeys⟩
+        · intro p i
+          simp only [mem_atPulse_addAt, h.sMem, hex, hE, hS, not_false_eq_true, or_true, and_true]
+          constructor
+          · rintro (h1 | ⟨rfl, rfl⟩)
+            · exact Or.inl h1
+            · exact Or.inr ⟨rfl, rfl⟩
+          · rintro (h1 | ⟨rfl, rfl⟩)
+            · exact Or.inl h1
+            · exact Or.inr ⟨rfl, rfl⟩
+        · intro p i
+          simp only [mem_atPulse_addAt, h.eMem, hex, hE, endPulse, hI', Bool.false_eq_true, if_false,
+            not_false_eq_true, and_true]
+          constructor
+          · rintro (h1 | ⟨rfl, rfl⟩)
+            · exact Or.inl h1
+            · exact Or.inr ⟨rfl, rfl⟩
+          · rintro (h1 | ⟨rfl, rfl⟩)
+            · exact Or.inl h1
+            · exact Or.inr ⟨rfl, rfl⟩
+        · intro p i hi
+          rcases mem_atPulse_addAt.1 hi with h1 | ⟨-, rfl⟩
+          · exact mem_insertPulse.2 (Or.inr (mem_insertPulse.2 (Or.inr (h.sPulse p i h1))))
+          · exact mem_insertPulse.2 (Or.inr (mem_insertPulse.2 (Or.inl rfl)))
+        · intro p i hi
+          rcases mem_atPulse_addAt.1 hi with h1 | ⟨-, rfl⟩
+          · exact mem_insertPulse.2 (Or.inr (mem_insertPulse.2 (Or.inr (h.ePulse p i h1))))
+          · exact mem_insertPulse.2 (Or.inl rfl)
+
+theorem BInv.foldl {st en : List Nat} (plan : List XAtom) : ∀ {done : List XAtom} {y : Exec}, BInv st en done y →
+    BInv st en (done ++ plan) (plan.foldl bstep y) := by
+  induction plan with
+  | nil => intro done y h; simpa using h
+  | cons a r ih =>
+    intro done y h
+    have := ih (h.step a)
+    simpa [List.append_assoc] using this
+
+/-- the timelines built by `buildTimelines` -/
+theorem BInv.build (x : Exec) (plan : List XAtom) : BInv x.started x.ended plan (buildTimelines x plan) := by
+  rw [buildTimelines_eq]
+  have h0 : BInv x.started x.ended [] { x with sAtms := [], eAtms := [], pulses := [] } := by
+    refine ⟨rfl, rfl, ?_, ?_, ?_, ?_, List.Pairwise.nil, ?_, ?_, List.nodup_nil, List.nodup_nil⟩ <;>
+      simp [atPulse]
+  simpa using h0.foldl plan
+
+
+/-! ### one iteration -/
+
+section iteration
+variable (x : Exec) (p : Time)
+
+@[simp] theorem iteration_now : (iteration x p).1.now = x.now := by
+  unfold iteration; simp only []; split <;> rfl
+@[simp] theorem iteration_upt : (iteration x p).1.upt = x.upt := by
+  unfold iteration; simp only []; split <;> rfl
+@[simp] theorem iteration_sAtms : (iteration x p).1.sAtms = x.sAtms := by
+  unfold iteration; simp only []; split <;> rfl
+@[simp] theorem iteration_eAtms : (iteration x p).1.eAtms = x.eAtms := by
+  unfold iteration; simp only []; split <;> rfl
+
+/-- the requests known once the `starting` / `ending` callbacks of the iteration have run -/
+def reqS : List (Nat × Rat) :=
+  (x.cbStart.filter (fun r => r.1 == x.tickNo && (atPulse x.sAtms p).contains r.2.1)).foldl
+    (fun m r => insertReq m r.2.1 r.2.2) x.dontStart
+def reqE : List (Nat × Rat) :=
+  (x.cbEnd.filter (fun r => r.1 == x.tickNo && (atPulse x.eAtms p).contains r.2.1)).foldl
+    (fun m r => insertReq m r.2.1 r.2.2) x.dontEnd
+/-- the atoms of the pulse with a request -/
+def delayedS : List Nat := (atPulse x.sAtms p).filter (fun i => (reqS x p).any (fun r => r.1 == i))
+def delayedE : List Nat := (atPulse x.eAtms p).filter (fun i => (reqE x p).any (fun r => r.1 == i))
+def evAnnounce : List Event :=
+  (if (atPulse x.sAtms p).isEmpty then [] else [.starting (atPulse x.sAtms p)]) ++
+  (if (atPulse x.eAtms p).isEmpty then [] else [.ending (atPulse x.eAtms p)])
+def evDelay : List Event :=
+  (delayedS x p).map (fun i => .delayStart i ((((reqS x p).find? (fun r => r.1 == i)).map (·.2)).getD 0)) ++
+  (delayedE x p).map (fun i => .delayEnd i ((((reqE x p).find? (fun r => r.1 == i)).map (·.2)).getD 0))
+def evDispatch : List Event :=
+  (if (atPulse x.sAtms p).isEmpty then [] else [.start (atPulse x.sAtms p)]) ++
+  (if (atPulse x.eAtms p).isEmpty then [] else [.stop (atPulse x.eAtms p)])
+
+theorem iteration_eq : iteration x p =
+    if !((delayedS x p).isEmpty && (delayedE x p).isEmpty) then
+      ({ x with dontStart := (reqS x p).filter (fun r => !(delayedS x p).contains r.1),
+                dontEnd := (reqE x p).filter (fun r => !(delayedE x p).contains r.1) },
+        evAnnounce x p ++ evDelay x p, true)
+    else
+      ({ x with dontStart := (reqS x p).filter (fun r => !(delayedS x p).contains r.1),
+                dontEnd := (reqE x p).filter (fun r => !(delayedE x p).contains r.1),
+                started := x.started ++ (atPulse x.sAtms p).filter (fun i => !x.started.contains i),
+                ended := x.ended ++ (atPulse x.eAtms p).filter (fun i => !x.ended.contains i),
+                pulses := x.pulses.drop 1 },
+        evAnnounce x p ++ evDispatch x p, false) := by
+  unfold iteration evDispatch evDelay evAnnounce delayedE delayedS reqE reqS
+  simp only [List.append_assoc]
+
+theorem startsOf_append (a b : List Event) : startsOf (a ++ b) = startsOf a ++ startsOf b := by
+  simp [startsOf]
+theorem endsOf_append (a b : List Event) : endsOf (a ++ b) = endsOf a ++ endsOf b := by
+  simp [endsOf]
+theorem dStartsOf_append (a b : List Event) : dStartsOf (a ++ b) = dStartsOf a ++ dStartsOf b := by
+  simp [dStartsOf]
+theorem dEndsOf_append (a b : List Event) : dEndsOf (a ++ b) = dEndsOf a ++ dEndsOf b := by
+  simp [dEndsOf]
+
+theorem evAnnounce_none : startsOf (evAnnounce x p) = [] ∧ endsOf (evAnnounce x p) = [] ∧
+    dStartsOf (evAnnounce x p) = [] ∧ dEndsOf (evAnnounce x p) = [] := by
+  unfold evAnnounce
+  refine ⟨?_, ?_, ?_, ?_⟩ <;> split <;> split <;> simp [startsOf, endsOf, dStartsOf, dEndsOf]
+
+theorem evDelay_some : startsOf (evDelay x p) = [] ∧ endsOf (evDelay x p) = [] ∧
+    dStartsOf (evDelay x p) = delayedS x p ∧ dEndsOf (evDelay x p) = delayedE x p := by
+  unfold evDelay
+  refine ⟨?_, ?_, ?_, ?_⟩ <;> simp [startsOf, endsOf, dStartsOf, dEndsOf, List.flatMap_map]
+
+theorem evDispatch_some : startsOf (evDispatch x p) = atPulse x.sAtms p ∧ endsOf (evDispatch x p) = atPulse x.eAtms p ∧
+    dStartsOf (evDispatch x p) = [] ∧ dEndsOf (evDispatch x p) = [] := by
+  unfold evDispatch
+  refine ⟨?_, ?_, ?_, ?_⟩ <;> split <;> split <;> simp_all [startsOf, endsOf, dStartsOf, dEndsOf]
+
+theorem iteration_wait (h : (iteration x p).2.2 = true) :
+    (iteration x p).1.started = x.started ∧ (iteration x p).1.ended = x.ended ∧ (iteration x p).1.pulses = x.pulses ∧
+    startsOf (iteration x p).2.1 = [] ∧ endsOf (iteration x p).2.1 = [] := by
+  rw [iteration_eq] at h ⊢
+  split at h
+  · rename_i hc
+    rw [if_pos hc]
+    simp only [startsOf_append, endsOf_append, (evAnnounce_none x p).1, (evAnnounce_none x p).2.1,
+      (evDelay_some x p).1, (evDelay_some x p).2.1, List.append_nil, and_self]
+  · simp at h
+
+theorem iteration_go (h : (iteration x p).2.2 = false) :
+    (iteration x p).1.started = x.started ++ (atPulse x.sAtms p).filter (fun i => !x.started.contains i) ∧
+    (iteration x p).1.ended = x.ended ++ (atPulse x.eAtms p).filter (fun i => !x.ended.contains i) ∧
+    (iteration x p).1.pulses = x.pulses.drop 1 ∧
+    startsOf (iteration x p).2.1 = atPulse x.sAtms p ∧ endsOf (iteration x p).2.1 = atPulse x.eAtms p := by
+  rw [iteration_eq] at h ⊢
+  split at h
+  · simp at h
+  · rename_i hc
+    rw [if_neg hc]
+    simp only [startsOf_append, endsOf_append, (evAnnounce_none x p).1, (evAnnounce_none x p).2.1,
+      (evDispatch_some x p).1, (evDispatch_some x p).2.1, List.nil_append, and_self]
+
+end iteration
+
+/-! ### the loop -/
+
+theorem manage_zero (x : Exec) : manage 0 x = (x, [], .needPlan) := rfl
+
+/-- the three ways a step of the loop goes -/
+theorem manage_succ_cases (fuel : Nat) (x : Exec) :
+    ((x.pulses = [] ∨ ∃ p r, x.pulses = p :: r ∧ tle p (x.now, 0) = false) ∧
+      manage (fuel + 1) x = ({ x with now := x.now + x.upt }, [.tick (x.now + x.upt)], .done)) ∨
+    (∃ p r, x.pulses = p :: r ∧ tle p (x.now, 0) = true ∧ (iteration x p).2.2 = true ∧
+      manage (fuel + 1) x = ((iteration x p).1, (iteration x p).2.1, .needPlan)) ∨
+    (∃ p r, x.pulses = p :: r ∧ tle p (x.now, 0) = true ∧ (iteration x p).2.2 = false ∧
+      manage (fuel + 1) x = ((manage fuel (iteration x p).1).1,
+        (iteration x p).2.1 ++ (manage fuel (iteration x p).1).2.1, (manage fuel (iteration x p).1).2.2)) := by
+  cases hp : x.pulses with
+  | nil => exact Or.inl ⟨Or.inl rfl, by simp [manage, hp]⟩
+  | cons p r =>
+    cases ht : tle p (x.now, 0) with
+    | false => exact Or.inl ⟨Or.inr ⟨p, r, rfl, ht⟩, by simp [manage, hp, ht]⟩
+    | true =>
+      rcases hit : iteration x p with ⟨x', ev, wait⟩
+      cases wait with
+      | true => exact Or.inr (Or.inl ⟨p, r, rfl, ht, by rw [hit], by simp [manage, hp, ht, hit]⟩)
+      | false => exact Or.inr (Or.inr ⟨p, r, rfl, ht, by rw [hit], by simp [manage, hp, ht, hit]⟩)
+
+
+/-! #### time -/
+
+theorem manage_now (fuel : Nat) : ∀ x : Exec,
+    ((manage fuel x).2.2 = .done → (manage fuel x).1.now = x.now + x.upt) ∧
+    ((manage fuel x).2.2 = .needPlan → (manage fuel x).1.now = x.now) := by
+  induction fuel with
+  | zero => intro x; simp [manage_zero]
+  | succ fuel ih =>
+    intro x
+    rcases manage_succ_cases fuel x with ⟨-, he⟩ | ⟨p, r, -, -, -, he⟩ | ⟨p, r, -, -, -, he⟩
+    · rw [he]; simp
+    · rw [he]; simp
+    · rw [he]; simpa using ih (iteration x p).1
+
+/-! #### never early -/
+
+theorem manage_not_early (fuel : Nat) : ∀ x : Exec,
+    (∀ i ∈ startsOf (manage fuel x).2.1, ∃ e ∈ x.sAtms, i ∈ e.2 ∧ tle e.1 (x.now, 0) = true) ∧
+    (∀ i ∈ endsOf (manage fuel x).2.1, ∃ e ∈ x.eAtms, i ∈ e.2 ∧ tle e.1 (x.now, 0) = true) := by
+  induction fuel with
+  | zero => intro x; simp [manage_zero, startsOf, endsOf]
+  | succ fuel ih =>
+    intro x
+    rcases manage_succ_cases fuel x with ⟨-, he⟩ | ⟨p, r, -, -, hw, he⟩ | ⟨p, r, -, ht, hw, he⟩
+    · rw [he]; simp [startsOf, endsOf]
+    · rw [he]; simp [(iteration_wait x p hw).2.2.2.1, (iteration_wait x p hw).2.2.2.2]
+    · rw [he]
+      have hg := iteration_go x p hw
+      have ih' := ih (iteration x p).1
+      simp only [iteration_sAtms, iteration_eAtms, iteration_now] at ih'
+      simp only [startsOf_append, endsOf_append, hg.2.2.2.1, hg.2.2.2.2, List.mem_append]
+      constructor
+      · rintro i (hi | hi)
+        · obtain ⟨e, he1, he2, he3⟩ := mem_atPulse hi
+          exact ⟨e, he1, he3, he2 ▸ ht⟩
+        · exact ih'.1 i hi
+      · rintro i (hi | hi)
+        · obtain ⟨e, he1, he2, he3⟩ := mem_atPulse hi
+          exact ⟨e, he1, he3, he2 ▸ ht⟩
+        · exact ih'.2 i hi
+
+/-! #### completeness of a finished tick -/
+
+theorem manage_nothing_due (fuel : Nat) : ∀ x : Exec, Sorted x.pulses → (manage fuel x).2.2 = .done →
+    ∀ p ∈ (manage fuel x).1.pulses, tlt (x.now, 0) p = true := by
+  induction fuel with
+  | zero => intro x _ hd; simp [manage_zero] at hd
+  | succ fuel ih =>
+    intro x hs hd
+    rcases manage_succ_cases fuel x with ⟨hc, he⟩ | ⟨p, r, -, -, -, he⟩ | ⟨p, r, hp, -, hw, he⟩
+    · rw [he]
+      show ∀ p ∈ x.pulses, _
+      rcases hc with hc | ⟨p, r, hp, ht⟩
+      · simp [hc]
+      · rw [hp] at hs ⊢
+        have h' := List.pairwise_cons.1 hs
+        intro q hq
+        rcases List.mem_cons.1 hq with rfl | hq
+        · simpa [tle] using ht
+        · have h1 := h'.1 q hq
+          have h2 : tlt (x.now, 0) p = true := by simpa [tle] using ht
+          exact tlt_trans h2 h1
+    · rw [he] at hd; simp at hd
+    · rw [he] at hd ⊢
+      have hg := iteration_go x p hw
+      have hs' : Sorted (iteration x p).1.pulses := by
+        rw [hg.2.2.1, hp]
+        rw [hp] at hs
+        exact (List.pairwise_cons.1 hs).2
+      simpa using ih (iteration x p).1 hs' hd
+
+/-- the `[i]!` form of strict sortedness -/
+theorem sorted_of_chain : ∀ (l : List Time), (∀ i, i + 1 < l.length → tlt l[i]! l[i + 1]! = true) → Sorted l
+  | [], _ => List.Pairwise.nil
+  | [a], _ => by simp [Sorted]
+  | a :: b :: r, h => by
+    have ih : Sorted (b :: r) := sorted_of_chain (b :: r) (by
+      intro i hi
+      have := h (i + 1) (by simpa using hi)
+      simpa using this)
+    have hab : tlt a b = true := by simpa using h 0 (by simp)
+    refine List.Pairwise.cons ?_ ih
+    intro x hx
+    rcases List.mem_cons.1 hx with rfl | hx
+    · exact hab
+    · exact tlt_trans hab ((List.pairwise_cons.1 ih).1 x hx)
+
+
+/-! #### at most once -/
+
+/-- the loop invariant behind "at most once": the atoms at the pulses still to be visited are not dispatched yet,
+    the pulses are distinct, and an atom sits at one pulse only -/
+structure TOk (x : Exec) : Prop where
+  sFresh : ∀ p ∈ x.pulses, ∀ i ∈ atPulse x.sAtms p, i ∉ x.started
+  eFresh : ∀ p ∈ x.pulses, ∀ i ∈ atPulse x.eAtms p, i ∉ x.ended
+  sKeys : (x.sAtms.map (·.1)).Nodup
+  eKeys : (x.eAtms.map (·.1)).Nodup
+  pNodup : x.pulses.Nodup
+  sNodup : ∀ p, (atPulse x.sAtms p).Nodup
+  sUniq : ∀ p q i, i ∈ atPulse x.sAtms p → i ∈ atPulse x.sAtms q → p = q
+  eNodup : ∀ p, (atPulse x.eAtms p).Nodup
+  eUniq : ∀ p q i, i ∈ atPulse x.eAtms p → i ∈ atPulse x.eAtms q → p = q
+
+theorem mem_append_filter_not {l s : List Nat} {i : Nat} :
+    i ∈ l ++ s.filter (fun i => !l.contains i) ↔ i ∈ l ∨ i ∈ s := by
+  simp only [List.mem_append, List.mem_filter]
+  by_cases h : i ∈ l <;> simp [h]
+
+theorem TOk.go {x : Exec} {p : Time} {r : List Time} (h : TOk x) (hp : x.pulses = p :: r)
+    (hw : (iteration x p).2.2 = false) : TOk (iteration x p).1 := by
+  have hg := iteration_go x p hw
+  have hnd := List.nodup_cons.1 (hp ▸ h.pNodup)
+  refine ⟨?_, ?_, by simpa using h.sKeys, by simpa using h.eKeys, ?_, by simpa using h.sNodup, by simpa using h.sUniq,
+    by simpa using h.eNodup, by simpa using h.eUniq⟩
+  · rw [hg.2.2.1, hg.1, hp, iteration_sAtms]
+    intro q hq i hi hmem
+    have hq' : q ∈ r := by simpa using hq
+    rcases mem_append_filter_not.1 hmem with h1 | h1
+    · exact h.sFresh q (hp ▸ List.mem_cons_of_mem _ hq') i hi h1
+    · exact hnd.1 (h.sUniq q p i hi h1 ▸ hq')
+  · rw [hg.2.2.1, hg.2.1, hp, iteration_eAtms]
+    intro q hq i hi hmem
+    have hq' : q ∈ r := by simpa using hq
+    rcases mem_append_filter_not.1 hmem with h1 | h1
+    · exact h.eFresh q (hp ▸ List.mem_cons_of_mem _ hq') i hi h1
+    · exact hnd.1 (h.eUniq q p i hi h1 ▸ hq')
+  · rw [hg.2.2.1, hp]; simpa using hnd.2
+
+theorem TOk.wait {x : Exec} {p : Time} (h : TOk x) (hw : (iteration x p).2.2 = true) : TOk (iteration x p).1 := by
+  have hg := iteration_wait x p hw
+  refine ⟨?_, ?_, by simpa using h.sKeys, by simpa using h.eKeys, ?_, by simpa using h.sNodup, by simpa using h.sUniq,
+    by simpa using h.eNodup, by simpa using h.eUniq⟩
+  · rw [hg.2.2.1, hg.1, iteration_sAtms]; exact h.sFresh
+  · rw [hg.2.2.1, hg.2.1, iteration_eAtms]; exact h.eFresh
+  · rw [hg.2.2.1]; exact h.pNodup
+
+theorem manage_once (fuel : Nat) : ∀ x : Exec, TOk x →
+    ((∀ i ∈ startsOf (manage fuel x).2.1, i ∉ x.started ∧ i ∈ (manage fuel x).1.started) ∧
+      (startsOf (manage fuel x).2.1).Nodup ∧ (∀ i ∈ x.started, i ∈ (manage fuel x).1.started)) ∧
+    ((∀ i ∈ endsOf (manage fuel x).2.1, i ∉ x.ended ∧ i ∈ (manage fuel x).1.ended) ∧
+      (endsOf (manage fuel x).2.1).Nodup ∧ (∀ i ∈ x.ended, i ∈ (manage fuel x).1.ended)) ∧
+    TOk (manage fuel x).1 := by
+  induction fuel with
+  | zero => intro x h; simpa [manage_zero, startsOf, endsOf] using h
+  | succ fuel ih =>
+    intro x h
+    rcases manage_succ_cases fuel x with ⟨-, he⟩ | ⟨p, r, -, -, hw, he⟩ | ⟨p, r, hp, -, hw, he⟩
+    · rw [he]
+      refine ⟨by simp [startsOf], by simp [endsOf], ?_⟩
+      exact ⟨h.sFresh, h.eFresh, h.sKeys, h.eKeys, h.pNodup, h.sNodup, h.sUniq, h.eNodup, h.eUniq⟩
+    · rw [he]
+      have hg := iteration_wait x p hw
+      simp only [hg.2.2.2.1, hg.2.2.2.2, hg.1, hg.2.1]
+      exact ⟨by simp, by simp, h.wait hw⟩
+    · rw [he]
+      have hg := iteration_go x p hw
+      obtain ⟨⟨s1, s2, s3⟩, ⟨e1, e2, e3⟩, hok⟩ := ih (iteration x p).1 (h.go hp hw)
+      have hpm : p ∈ x.pulses := by rw [hp]; exact List.mem_cons_self
+      simp only [startsOf_append, endsOf_append, hg.2.2.2.1, hg.2.2.2.2, List.mem_append]
+      refine ⟨⟨?_, ?_, ?_⟩, ⟨?_, ?_, ?_⟩, hok⟩
+      · rintro i (hi | hi)
+        · exact ⟨h.sFresh p hpm i hi, s3 i (by rw [hg.1]; exact mem_append_filter_not.2 (Or.inr hi))⟩
+        · exact ⟨fun hx => (s1 i hi).1 (by rw [hg.1]; exact mem_append_filter_not.2 (Or.inl hx)), (s1 i hi).2⟩
+      · refine List.nodup_append.2 ⟨h.sNodup p, s2, ?_⟩
+        rintro a ha b hb rfl
+        exact (s1 a hb).1 (by rw [hg.1]; exact mem_append_filter_not.2 (Or.inr ha))
+      · intro i hi
+        exact s3 i (by rw [hg.1]; exact mem_append_filter_not.2 (Or.inl hi))
+      · rintro i (hi | hi)
+        · exact ⟨h.eFresh p hpm i hi, e3 i (by rw [hg.2.1]; exact mem_append_filter_not.2 (Or.inr hi))⟩
+        · exact ⟨fun hx => (e1 i hi).1 (by rw [hg.2.1]; exact mem_append_filter_not.2 (Or.inl hx)), (e1 i hi).2⟩
+      · refine List.nodup_append.2 ⟨h.eNodup p, e2, ?_⟩
+        rintro a ha b hb rfl
+        exact (e1 a hb).1 (by rw [hg.2.1]; exact mem_append_filter_not.2 (Or.inr ha))
+      · intro i hi
+        exact e3 i (by rw [hg.2.1]; exact mem_append_filter_not.2 (Or.inl hi))
+
+theorem sorted_nodup {l : List Time} (h : Sorted l) : l.Nodup :=
+  List.Pairwise.imp (fun {a c} h => by rintro rfl; simp [tlt_irrefl] at h) h
+
+/-- distinct ids: an id names one atom of the plan -/
+theorem eq_of_id_eq : ∀ {plan : List XAtom}, (plan.map (·.id)).Nodup → ∀ {a b : XAtom}, a ∈ plan → b ∈ plan →
+    a.id = b.id → a = b
+  | [], _, _, _, ha, _, _ => by simp at ha
+  | c :: r, h, a, b, ha, hb, hab => by
+    simp only [List.map_cons, List.nodup_cons, List.mem_map, not_exists, not_and] at h
+    rcases List.mem_cons.1 ha with ea | ha <;> rcases List.mem_cons.1 hb with eb | hb
+    · rw [ea, eb]
+    · exact absurd (ea ▸ hab.symm) (h.1 b hb)
+    · exact absurd (eb ▸ hab) (h.1 a ha)
+    · exact eq_of_id_eq h.2 ha hb hab
+
+/-- `buildTimelines` establishes the invariant, for a plan with distinct ids whose impulses are ended as soon as
+    they are started -/
+theorem TOk.build (x : Exec) (plan : List XAtom) (hid : (plan.map (·.id)).Nodup)
+    (himp : ∀ a ∈ plan, a.impulse = true → a.id ∈ x.started → a.id ∈ x.ended) : TOk (buildTimelines x plan) := by
+  have b := BInv.build x plan
+  refine ⟨?_, ?_, b.sKeys, b.eKeys, ?_, b.sNodup, ?_, b.eNodup, ?_⟩
+  · intro p _ i hi
+    obtain ⟨a, ha, rfl, -, hne, hs⟩ := (b.sMem p i).1 hi
+    rw [b.hst]
+    rcases hs with hs | hs
+    · exact fun hst => hne (himp a ha hs hst)
+    · exact hs
+  · intro p _ i hi
+    obtain ⟨a, -, rfl, -, hne⟩ := (b.eMem p i).1 hi
+    rw [b.hen]; exact hne
+  · exact sorted_nodup b.sorted
+  · intro p q i hp hq
+    obtain ⟨a, ha, ha1, ha2, -⟩ := (b.sMem p i).1 hp
+    obtain ⟨c, hc, hc1, hc2, -⟩ := (b.sMem q i).1 hq
+    have := eq_of_id_eq hid ha hc (ha1.trans hc1.symm)
+    subst this; exact ha2.symm.trans hc2
+  · intro p q i hp hq
+    obtain ⟨a, ha, ha1, ha2, -⟩ := (b.eMem p i).1 hp
+    obtain ⟨c, hc, hc1, hc2, -⟩ := (b.eMem q i).1 hq
+    have := eq_of_id_eq hid ha hc (ha1.trans hc1.symm)
+    subst this; exact ha2.symm.trans hc2
+
+
+/-! #### a delay that is honoured -/
+
+theorem iteration_delayed (x : Exec) (p : Time) :
+    ((iteration x p).2.2 = true → startsOf (iteration x p).2.1 = [] ∧ endsOf (iteration x p).2.1 = [] ∧
+      (∀ i ∈ dStartsOf (iteration x p).2.1, ∀ q, (i, q) ∉ (iteration x p).1.dontStart) ∧
+      (∀ i ∈ dEndsOf (iteration x p).2.1, ∀ q, (i, q) ∉ (iteration x p).1.dontEnd)) ∧
+    ((iteration x p).2.2 = false → dStartsOf (iteration x p).2.1 = [] ∧ dEndsOf (iteration x p).2.1 = [] ∧
+      (∀ i ∈ atPulse x.sAtms p, ∀ q, (i, q) ∉ (iteration x p).1.dontStart)) := by
+  constructor
+  · intro hw
+    refine ⟨(iteration_wait x p hw).2.2.2.1, (iteration_wait x p hw).2.2.2.2, ?_⟩
+    rw [iteration_eq] at hw ⊢
+    split at hw
+    · rename_i hc
+      rw [if_pos hc]
+      simp only [dStartsOf_append, dEndsOf_append, (evAnnounce_none x p).2.2.1, (evAnnounce_none x p).2.2.2,
+        (evDelay_some x p).2.2.1, (evDelay_some x p).2.2.2, List.nil_append]
+      constructor
+      · intro i hi q hm
+        have := (List.mem_filter.1 hm).2
+        simp [hi] at this
+      · intro i hi q hm
+        have := (List.mem_filter.1 hm).2
+        simp [hi] at this
+    · simp at hw
+  · intro hw
+    rw [iteration_eq] at hw ⊢
+    split at hw
+    · simp at hw
+    · rename_i hc
+      rw [if_neg hc]
+      simp only [dStartsOf_append, dEndsOf_append, (evAnnounce_none x p).2.2.1, (evAnnounce_none x p).2.2.2,
+        (evDispatch_some x p).2.2.1, (evDispatch_some x p).2.2.2, List.nil_append, true_and]
+      intro i hi q hm
+      have hS : delayedS x p = [] := by
+        have : (delayedS x p).isEmpty = true ∧ (delayedE x p).isEmpty = true := by simpa using hc
+        simpa using this.1
+      have h1 : (i, q) ∈ reqS x p := (List.mem_filter.1 hm).1
+      have h2 : i ∈ delayedS x p := by
+        unfold delayedS
+        exact List.mem_filter.2 ⟨hi, List.any_eq_true.2 ⟨(i, q), h1, by simp⟩⟩
+      simp [hS] at h2
+
+/-! #### an atom is ended only once started -/
+
+/-- the loop invariant behind "start before end": an atom still to be ended either is started or is still to be
+    started, at a pulse which is not after the one at which it ends -/
+structure EInv (x : Exec) : Prop where
+  sorted : Sorted x.pulses
+  sub : ∀ i ∈ x.ended, i ∈ x.started
+  cover : ∀ q ∈ x.pulses, ∀ i ∈ atPulse x.eAtms q,
+    i ∈ x.started ∨ ∃ q' ∈ x.pulses, tle q' q = true ∧ i ∈ atPulse x.sAtms q'
+
+theorem EInv.go {x : Exec} {p : Time} {r : List Time} (h : EInv x) (hp : x.pulses = p :: r)
+    (hw : (iteration x p).2.2 = false) : EInv (iteration x p).1 := by
+  have hg := iteration_go x p hw
+  have hs := List.pairwise_cons.1 (hp ▸ h.sorted)
+  have hpm : p ∈ x.pulses := by rw [hp]; exact List.mem_cons_self
+  refine ⟨?_, ?_, ?_⟩
+  · rw [hg.2.2.1, hp]; simpa using hs.2
+  · rw [hg.1, hg.2.1]
+    intro i hi
+    rcases mem_append_filter_not.1 hi with h1 | h1
+    · exact mem_append_filter_not.2 (Or.inl (h.sub i h1))
+    · rcases h.cover p hpm i h1 with h2 | ⟨q', hq', hle, h2⟩
+      · exact mem_append_filter_not.2 (Or.inl h2)
+      · have : q' = p := by
+          rw [hp] at hq'
+          rcases List.mem_cons.1 hq' with h3 | h3
+          · exact h3
+          · have := hs.1 q' h3; torder
+        subst this
+        exact mem_append_filter_not.2 (Or.inr h2)
+  · rw [hg.2.2.1, hg.1, hp, iteration_sAtms, iteration_eAtms]
+    intro q hq i hi
+    have hq' : q ∈ r := by simpa using hq
+    rcases h.cover q (hp ▸ List.mem_cons_of_mem _ hq') i hi with h2 | ⟨q', hq2, hle, h2⟩
+    · exact Or.inl (mem_append_filter_not.2 (Or.inl h2))
+    · rw [hp] at hq2
+      rcases List.mem_cons.1 hq2 with h3 | h3
+      · subst h3
+        exact Or.inl (mem_append_filter_not.2 (Or.inr h2))
+      · exact Or.inr ⟨q', by simpa using h3, hle, h2⟩
+
+theorem manage_end_after_start (fuel : Nat) : ∀ x : Exec, EInv x → EInv (manage fuel x).1 := by
+  induction fuel with
+  | zero => intro x h; simpa [manage_zero] using h
+  | succ fuel ih =>
+    intro x h
+    rcases manage_succ_cases fuel x with ⟨-, he⟩ | ⟨p, r, -, -, hw, he⟩ | ⟨p, r, hp, -, hw, he⟩
+    · rw [he]; exact ⟨h.sorted, h.sub, h.cover⟩
+    · rw [he]
+      have hg := iteration_wait x p hw
+      refine ⟨?_, ?_, ?_⟩
+      · show Sorted (iteration x p).1.pulses
+        rw [hg.2.2.1]; exact h.sorted
+      · show ∀ i ∈ (iteration x p).1.ended, i ∈ (iteration x p).1.started
+        rw [hg.1, hg.2.1]; exact h.sub
+      · show ∀ q ∈ (iteration x p).1.pulses, ∀ i ∈ atPulse (iteration x p).1.eAtms q,
+          i ∈ (iteration x p).1.started ∨ ∃ q' ∈ (iteration x p).1.pulses, tle q' q = true ∧
+            i ∈ atPulse (iteration x p).1.sAtms q'
+        rw [hg.2.2.1, hg.1, iteration_sAtms, iteration_eAtms]; exact h.cover
+    · rw [he]; exact ih _ (h.go hp hw)
+
+/-- the timelines built from a plan of well-formed atoms satisfy the invariant -/
+theorem EInv.build (x : Exec) (plan : List XAtom) (hwf : ∀ a ∈ plan, tle a.start a.stop = true)
+    (hse : ∀ i ∈ x.ended, i ∈ x.started) : EInv (buildTimelines x plan) := by
+  have b := BInv.build x plan
+  refine ⟨b.sorted, by rw [b.hst, b.hen]; exact hse, ?_⟩
+  intro q _ i hi
+  obtain ⟨a, ha, rfl, hq, hne⟩ := (b.eMem q i).1 hi
+  rw [b.hst]
+  by_cases hI : a.impulse = true
+  · have hs : a.id ∈ atPulse (buildTimelines x plan).sAtms a.start :=
+      (b.sMem _ _).2 ⟨a, ha, rfl, rfl, hne, Or.inl hI⟩
+    have : a.start = q := by simpa [endPulse, hI] using hq
+    exact Or.inr ⟨a.start, b.sPulse _ _ hs, by subst this; simp [tle, tlt_irrefl], hs⟩
+  · by_cases hS : a.id ∈ x.started
+    · exact Or.inl hS
+    · have hs : a.id ∈ atPulse (buildTimelines x plan).sAtms a.start :=
+        (b.sMem _ _).2 ⟨a, ha, rfl, rfl, hne, Or.inr hS⟩
+      have : a.stop = q := by simpa [endPulse, hI] using hq
+      exact Or.inr ⟨a.start, b.sPulse _ _ hs, this ▸ hwf a ha, hs⟩
+
+
+/-! #### the pulses stay sorted -/
+
+theorem manage_sorted (fuel : Nat) : ∀ x : Exec, Sorted x.pulses → Sorted (manage fuel x).1.pulses := by
+  induction fuel with
+  | zero => intro x h; simpa [manage_zero] using h
+  | succ fuel ih =>
+    intro x h
+    rcases manage_succ_cases fuel x with ⟨-, he⟩ | ⟨p, r, -, -, hw, he⟩ | ⟨p, r, hp, -, hw, he⟩
+    · rw [he]; exact h
+    · rw [he]; show Sorted (iteration x p).1.pulses
+      rw [(iteration_wait x p hw).2.2.1]; exact h
+    · rw [he]; refine ih _ ?_
+      rw [(iteration_go x p hw).2.2.1, hp]
+      rw [hp] at h
+      exact (List.pairwise_cons.1 h).2
+
+theorem chain_of_sorted {l : List Time} (h : Sorted l) :
+    ∀ i, i + 1 < l.length → tlt l[i]! l[i + 1]! = true := by
+  intro i hi
+  have h1 : i < l.length := by omega
+  rw [getElem!_pos l i h1, getElem!_pos l (i + 1) hi]
+  exact (List.pairwise_iff_getElem.1 h) i (i + 1) h1 hi (by omega)
+
+/-! #### impulses are started and ended together -/
+
+/-- for a fixed assignment `imp` of kinds to atoms: an impulse that is started is ended, and the timelines start
+    an impulse only where they end it -/
+structure KInv (imp : Nat → Bool) (x : Exec) : Prop where
+  done : ∀ i, imp i = true → i ∈ x.started → i ∈ x.ended
+  both : ∀ i, imp i = true → ∀ p, i ∈ atPulse x.sAtms p → i ∈ atPulse x.eAtms p
+
+theorem manage_kinds (imp : Nat → Bool) (fuel : Nat) : ∀ x : Exec, KInv imp x → KInv imp (manage fuel x).1 := by
+  induction fuel with
+  | zero => intro x h; simpa [manage_zero] using h
+  | succ fuel ih =>
+    intro x h
+    rcases manage_succ_cases fuel x with ⟨-, he⟩ | ⟨p, r, -, -, hw, he⟩ | ⟨p, r, hp, -, hw, he⟩
+    · rw [he]; exact ⟨h.done, h.both⟩
+    · rw [he]
+      have hg := iteration_wait x p hw
+      refine ⟨?_, ?_⟩
+      · show ∀ i, imp i = true → i ∈ (iteration x p).1.started → i ∈ (iteration x p).1.ended
+        rw [hg.1, hg.2.1]; exact h.done
+      · show ∀ i, imp i = true → ∀ q, i ∈ atPulse (iteration x p).1.sAtms q → i ∈ atPulse (iteration x p).1.eAtms q
+        rw [iteration_sAtms, iteration_eAtms]; exact h.both
+    · rw [he]; refine ih _ ⟨?_, ?_⟩
+      · have hg := iteration_go x p hw
+        rw [hg.1, hg.2.1]
+        intro i hi hm
+        rcases mem_append_filter_not.1 hm with h1 | h1
+        · exact mem_append_filter_not.2 (Or.inl (h.done i hi h1))
+        · exact mem_append_filter_not.2 (Or.inr (h.both i hi p h1))
+      · rw [iteration_sAtms, iteration_eAtms]; exact h.both
+
+theorem KInv.build (imp : Nat → Bool) (x : Exec) (plan : List XAtom) (hk : ∀ a ∈ plan, a.impulse = imp a.id)
+    (h : ∀ i, imp i = true → i ∈ x.started → i ∈ x.ended) : KInv imp (buildTimelines x plan) := by
+  have b := BInv.build x plan
+  refine ⟨by rw [b.hst, b.hen]; exact h, ?_⟩
+  intro i hi p hm
+  obtain ⟨a, ha, rfl, rfl, hne, -⟩ := (b.sMem p i).1 hm
+  have hI : a.impulse = true := (hk a ha).trans hi
+  exact (b.eMem _ _).2 ⟨a, ha, rfl, by simp [endPulse, hI], hne⟩
+
+end Oratio.Exec
